@@ -44,9 +44,31 @@ def spec_view(op, line):
     return line
 
 
+def socket_part(chk, cfg, proof_ok, detail):
+    """EINTR injected at every k-th invocation (k <= 6) of each blocking native call of the socket layer"""
+    import os
+    if not os.path.exists(os.path.join(pv.LEAN, "PV", "Driver", "Socket.lean")):
+        return False, None, None
+    from props import sockets as S
+    exe = S.build(cfg)
+    fam = S.make_family(exe, S.view_c09)
+    cases = [ops for _, ops in S.eintr_kth_cases(6)]
+    chk.cov["socket_eintr_cases"] = len(cases)
+    return diffrun.campaign(chk, fam, cases, proof_ok, detail, None, "C19 sockets: EINTR at every k-th native call", batch=100)
+
+
+def prop_modules():
+    import os
+    mods = ["PV.Props.C19"]
+    for m in ("C09", "C06", "C07"):        # the *_eintr_transparent theorems live with their families
+        if os.path.exists(os.path.join(pv.LEAN, "PV", "Props", m + ".lean")):
+            mods.append("PV.Props." + m)
+    return mods
+
+
 def run(chk):
     cfg = pv.repo_config()
-    proof_ok, driver_ok, detail = pv.proof_stage(chk, ["PV.Props.C19"])
+    proof_ok, driver_ok, detail = pv.proof_stage(chk, prop_modules())
     exe = pv.build_harness("sleep", cfg, ["sleep.c"], san="asan", link=["-Wl,--wrap=clock_nanosleep", "-Wl,--wrap=nanosleep"])
     fam = diffrun.Family("sleep", exe, spec_view=spec_view, timeout=300)
     thorough = chk.tier == "thorough"
@@ -55,7 +77,8 @@ def run(chk):
     # supporting: real signals (lower bound on elapsed time only)
     real = [["real %d %d" % (ms, per)] for ms, per in ([(120, 7000), (300, 20000)] + ([(1000, 3000), (50, 1000)] if thorough else []))]
     f2, c2, t2 = diffrun.campaign(chk, fam, real, proof_ok, detail, None, "C19 sleep under a SIGALRM storm", batch=1, min_ops=1)
-    diffrun.conclude(chk, found or f2, corr or c2, thm or t2, proof_ok and driver_ok, detail, "C19 sleep")
+    f3, c3, t3 = socket_part(chk, cfg, proof_ok, detail)
+    diffrun.conclude(chk, found or f2 or f3, corr or c2 or c3, thm or t2 or t3, proof_ok and driver_ok, detail, "C19 sleep + sockets")
     chk.cov["rule"] = ("scripted native sleep results: every number k<=6 of EINTR results x ambient errno values x final result x boundary msec values (exhaustive), "
                        "random longer scripts; real SIGALRM storms with a handler installed without SA_RESTART (lower bound on elapsed time only); distinct by op line")
     chk.assumptions += ["clock_nanosleep reports its error as return value and leaves errno alone; writes the remaining time on EINTR (POSIX)",
